@@ -16,7 +16,12 @@ Spellings ==
     KwL("true"), KwL("false"), KwL("null"),
     Id("int1"), Id("f1"), Id("f01"), Id("i64"), Id("negzero"), Id("s1"), Id("sa"), Id("nl"), Id("np"), Id("bt"), Id("i32"), Id("d3"), Id("undefined") }
 CmpOps == {"<", ">", "<=", ">=", "==", "!=", "===", "!=="}
-GroupsC05 == Spellings
-GroupProgramsC05(a) == { <<"Bin", op, a, b>> : op \in CmpOps, b \in Spellings }
+\* every value kind for the negation laws, also the cross-kind and container cells the specification leaves open
+LawVals == Spellings \cup { <<"Arr", <<>>>>, <<"Arr", <<N(1)>>>>, Id("m5"), Id("t5") }
+GroupsC05 == Spellings \cup { <<"neglaw", a>> : a \in LawVals }
+GroupProgramsC05(a) ==
+  IF a[1] = "neglaw"
+  THEN { <<"Arr", << <<"Bin", ops[1], a[2], b>>, <<"Bin", ops[2], a[2], b>> >>>> : ops \in {<<"==", "!=">>, <<"===", "!==">>}, b \in LawVals }
+  ELSE { <<"Bin", op, a, b>> : op \in CmpOps, b \in Spellings }
 
 =============================================================================
